@@ -143,10 +143,17 @@ def st_project():
                 body = 'from %s._impl import I\n__all__ = [\'I\']\n' % home
             elif second and i == 0:
                 body = 'from %s import I\n__all__ = [\'I\']\n' % pkgs[exporter]
-            mods.append((full.rsplit('.', 1)[-1], full.rsplit('.', 1)[0] if '.' in full else None, True, body))
-        mods.append(('_impl', home, False, impl))
+            mods.append([full.rsplit('.', 1)[-1], full.rsplit('.', 1)[0] if '.' in full else None, True, body])
+        mods.append(['_impl', home, False, impl])
         if draw(st.booleans()):
             mods.append(('user', 'top', False, 'from zope.interface import implementer\nfrom %s import I\nfrom %s._impl import I as Old\n@implementer(I)\nclass Basket:\n    pass\n@implementer(Old)\nclass Crate:\n    pass\n' % (pkgs[exporter], home)))
+        if draw(st.booleans()):
+            # the class declares the moved interface a second time, under its public name, among other interfaces (declared in a module
+            # that is analysed after the move): every declared interface lists the class
+            others = draw(st.lists(st.sampled_from(['IBar', 'IBaz', 'IQux']), min_size=1, max_size=3, unique=True))
+            mods[-1 if mods[-1][0] == '_impl' else -2][3] += ''.join('class %s(Interface):\n    pass\n' % o for o in ['IBar', 'IBaz', 'IQux'])
+            decl = draw(st.permutations(['I'] + others))
+            mods.append(('registry', 'top', False, 'from zope.interface import classImplements\nfrom %s import I\nfrom %s._impl import Shelf, IBar, IBaz, IQux\nclassImplements(Shelf, %s)\n' % (pkgs[exporter], home, ', '.join(decl))))
         return {'kind': 'project', 'mods': [list(m) for m in mods], 'order': None}
 
     @st.composite
